@@ -129,6 +129,26 @@ mut('m15c_revert_paren_fix', ['C09'], MS, '''            let mut ty: &syn::Type 
             quote! { #ty }''', '''            quote! { #ty }''', 'revert of fix D8 (sync macro)')
 mut('m15d_revert_turbofish_fix', ['C09'], MA, '''            .replace(' ', "")
             .replace("::<", "<");''', '''            .replace(' ', "");''', 'revert of fix D9 (async macro)')
+mut('m04x_mirrored_queue_index', ['C04'], G, 'if let Some(pos) = o.iter().position(|k| *k == key_s) {', 'if let Some(pos) = o.iter().rev().position(|k| *k == key_s) {', 'index counted from the back, removal counts from the front', count=2)
+mut('m13x_queue_removal_in_debug_assert', ['C13'], MS, '                                order_write.remove(pos);', '                                debug_assert!(order_write.remove(pos).is_some());', 'the queue removal of the check callback exists in debug builds only')
+mut('m08y_policy_eq_wrong_arm', ['C08'], 'cachelito-core/src/eviction_policy.rs', '(EvictionPolicy::TLRU, EvictionPolicy::TLRU) => true,', '(EvictionPolicy::LRU, EvictionPolicy::TLRU) => true,', 'TLRU == TLRU is false: the async recency refresh never runs under TLRU')
+mut('m15y_registry_name_lowercased', ['C15'], SR, 'registry.insert(name.to_string(), stats);', 'registry.insert(name.to_ascii_lowercase(), stats);', 'two caches whose names differ only in case share one slot')
+mut('m18x_probe_before_queue_lock', ['C18'], A, """        let mut order = self.order.lock();
+
+        // Check if another task already inserted this key while we were computing
+        if self.is_already_key_inserted(key, &mut order) {
+            return;
+        }
+
+        // Handle entry-count limits""", """        let replaces_entry = self.cache.contains_key(key);
+        let mut order = self.order.lock();
+
+        // Check if another task already inserted this key while we were computing
+        if replaces_entry && self.is_already_key_inserted(key, &mut order) {
+            return;
+        }
+
+        // Handle entry-count limits""", 'stale presence probe: two tasks missing on one key queue it twice')
 mut('m09c_vec_buffer_elem_size', ['C05'], ME, 'let buffer = self.capacity() * size_of::<T>();', 'let buffer = self.capacity() * size_of::<usize>();', 'buffer counted in words, not in elements')
 mut('m09d_option_double_counts_inline', ['C05'], ME, '.map_or(0, |val| val.estimate_memory() - size_of_val(val))', '.map_or(0, |val| val.estimate_memory())', 'payload inline size counted twice')
 mut('m09e_result_err_arm', ['C05'], ME, 'Err(err) => err.estimate_memory() - size_of_val(err),', 'Err(_) => 0,', 'heap owned by the Err payload ignored')
@@ -566,6 +586,17 @@ eqv('e26_option_estimator_match', ME, '''        size_of::<Self>()
             }''', 'Option estimator written as a match')
 eqv('e27_tlru_factor_order', U, 'Some(weight) => frequency * weight,', 'Some(weight) => weight * frequency,', 'operands of the weighted hit count swapped')
 eqv('e28_tlru_score_order', U, 'let score = frequency_component * position_weight * age_factor;', 'let score = age_factor * (position_weight * frequency_component);', 'score factors reordered')
+eqv('e31_position_predicate_spelling', U, "if let Some(pos) = order.iter().position(|k| k == key) {\n        order.remove(pos);\n        order.push_back", "if let Some(pos) = order.iter().position(|k| key == k.as_str()) {\n        order.remove(pos);\n        order.push_back", 'equality predicate written the other way round')
+eqv('e32_registry_to_owned', SR, 'registry.insert(name.to_string(), stats);', 'registry.insert(name.to_owned(), stats);', 'to_owned for to_string')
+eqv('e33_policy_eq_matches', 'cachelito-core/src/eviction_policy.rs', """        match (self, other) {
+            (EvictionPolicy::FIFO, EvictionPolicy::FIFO) => true,
+            (EvictionPolicy::LRU, EvictionPolicy::LRU) => true,
+            (EvictionPolicy::LFU, EvictionPolicy::LFU) => true,
+            (EvictionPolicy::ARC, EvictionPolicy::ARC) => true,
+            (EvictionPolicy::Random, EvictionPolicy::Random) => true,
+            (EvictionPolicy::TLRU, EvictionPolicy::TLRU) => true,
+            _ => false,
+        }""", """        std::mem::discriminant(self) == std::mem::discriminant(other)""", 'variant equality through mem::discriminant')
 eqv('e20_negated_overflow', G, 'if o.len() > limit {', 'if !(o.len() <= limit) {', 'overflow test written through a negation')
 eqv('e21_negated_async_expiry', A, '                age >= ttl\n', '                !(age < ttl)\n', 'expiry test written through a negation')
 eqv('e22_negated_oversize', G, 'if new_value_size > max_mem {', 'if !(new_value_size <= max_mem) {', 'oversize test written through a negation')
